@@ -13,7 +13,7 @@ class C14(core.Prop):
     pid = 'C14'
     lean_modules = ['TddaVerif.Props.C14']
     theorems = ['TddaVerif.Props.C14.' + t for t in [
-        'order_independent', 'clean_dict_eq_list', 'dict_eq_list', 'freq_irrelevant', 'repeat_is_noop', 'series_eq_list']]
+        'order_independent', 'clean_dict_eq_list', 'dict_eq_list', 'freq_irrelevant', 'repeat_is_noop', 'series_eq_list', 'order_independent_every_size']]
     quick_n = 300
     thorough_n = 15000
     rule = ('cases: example multisets (as C03) x option subsets x Size settings that force sampling x seeds; each is '
@@ -64,7 +64,7 @@ class C14(core.Prop):
         if not rx.modelled(case['examples'], case['opts']):
             return []
         if rx.nosampling(case['examples'], case['opts'], case['size']):
-            ops = [rx.model_extract_op(ex, case['opts'], form) for ex, form in self._variants(case)]
+            ops = [rx.model_extract_op(ex, case['opts'], form, case['size']) for ex, form in self._variants(case)]
             if self._series_ok(case):
                 ops.append({'op': 'rx.pdextract', 'table': rx.char_table(case['examples'], ascii_digits=True), 'cols': self._cols(case)})
             return ops
